@@ -203,7 +203,12 @@ def time_transforms(ck):
 
 
 def joint_shift(ck):
-    D = Fr(7)
+    # offsets that put a bound of the shifted spans exactly on 0 (a bound equal to zero is a bound like any other), and one that does not
+    for D in (Fr(7), Fr(-2), Fr(-4), Fr(-6), Fr(-1), Fr(-5)):
+        joint_shift_by(ck, D)
+
+
+def joint_shift_by(ck, D):
     for pat in ('p', 'pm'):
         for ss in (None, (2, 4)):
             def mk(s):
